@@ -473,13 +473,14 @@ func (ex *Exec) step(fr *Frame, instr ssa.Instruction) *Panic {
 		cp := ex.get(fr, in.Cap).(*Term)
 		_, lsigned, _ := intWidth(in.Len.Type())
 		_, csigned, _ := intWidth(in.Cap.Type())
-		n, pan := ex.sizeArg(ln, lsigned, "makeslice: len out of range")
+		elemSize := (&types.StdSizes{WordSize: 8, MaxAlign: 8}).Sizeof(in.Type().Underlying().(*types.Slice).Elem())
+		n, pan := ex.sizeArg(ln, lsigned, elemSize, "makeslice: len out of range")
 		if pan != nil {
 			return pan
 		}
 		c := n
 		if cp != ln {
-			c, pan = ex.sizeArg(cp, csigned, "makeslice: cap out of range")
+			c, pan = ex.sizeArg(cp, csigned, elemSize, "makeslice: cap out of range")
 			if pan != nil {
 				return pan
 			}
@@ -624,8 +625,10 @@ type strIter struct {
 	i int
 }
 
-// sizeArg validates a make() size: negative or absurdly large → panic path / allocation finding.
-func (ex *Exec) sizeArg(t *Term, signed bool, msg string) (int, *Panic) {
+// sizeArg validates a make() size: negative → panic path; larger than the allocation limit →
+// allocation finding. The harness's AllocLimit is in bytes (elements × element size); without
+// one the cap is 2^20 elements.
+func (ex *Exec) sizeArg(t *Term, signed bool, elemSize int64, msg string) (int, *Panic) {
 	if t.w != 64 {
 		t = ex.ts.Resize(t, 64, signed) // make sizes may be of any integer type
 	}
@@ -633,14 +636,19 @@ func (ex *Exec) sizeArg(t *Term, signed bool, msg string) (int, *Panic) {
 	if pan := ex.guard(ex.ts.Not(neg), "makeneg", msg); pan != nil {
 		return 0, pan
 	}
-	lim := ex.allocLimit
-	if lim <= 0 {
-		lim = 1 << 20
+	lim := 1 << 20
+	what := fmt.Sprintf("%d elements", lim)
+	if ex.allocLimit > 0 {
+		if elemSize < 1 {
+			elemSize = 1
+		}
+		lim = ex.allocLimit / int(elemSize)
+		what = fmt.Sprintf("%d bytes (%d elements of %d bytes)", ex.allocLimit, lim, elemSize)
 	}
 	big := ex.ts.Cmp(OpSlt, ex.ts.Const(64, uint64(lim)), t)
 	if !big.IsFalse() {
 		if ex.branch(big) {
-			ex.reportSite("alloc", "oversize", fmt.Sprintf("allocation size can exceed %d elements", lim))
+			ex.reportSite("alloc", "oversize", "a single allocation can exceed "+what)
 			ex.endPath("alloc-limit")
 		}
 	}
